@@ -46,6 +46,19 @@ CHECKS["C18"] = dict(
          "2 files, limits {3,5}.",
     design_ref="DESIGN.md section 5 C18")
 
+CHECKS["C17"] = dict(
+    technique="TLA+ persistence model + durability rule (Durable.tla) evaluated by TLC at every crash point of "
+              "system-call logs recorded with strace from a real process (DurableTrace.tla); implementation-shaped "
+              "model DurableImpl.tla model-checked; crash images computed by TLC materialised and recovered by the real store",
+    category="fault_enumeration",
+    text="Every prefix of the real system-call log (mkdir/open-truncate/write/fsync/close) of every set in several "
+         "sequences is a crash point; at each TLC evaluates the rule over all allowed losses of unsynced data (none, all, "
+         "every byte prefix); sampled crash images are written to disk and opened by a fresh real KeyValueStorage.",
+    note="Assumes fsync(fd) also persists the directory entry (and directories created for the key). Trusted: strace's "
+         "completion order, TLC, the mapping of written bytes to value prefixes. rename-based writers are not modelled "
+         "(the check then stops with a machinery failure, not an alarm).",
+    design_ref="DESIGN.md section 5 C17")
+
 NOT_YET = {}
 
 
